@@ -749,3 +749,119 @@ class weave_states_transfer_contract:
 
     def canary(sh, a, ret):
         check("canary: the state is always empty afterwards", len(ret[0]) == 0)
+
+
+# =====================================================================================
+# HoistSetupCallsIntoConditionals: a setup after an scf.if moves into both branches only when no launch can observe
+# the if's state in between, and when everything it uses is available inside the branches
+# =====================================================================================
+from pyvc.api import mk_opresult  # noqa: E402
+from xdsl.ir import Use  # noqa: E402
+
+
+class RegionView(Operation):
+    """some op with one region (e.g. a second scf.if / a loop) holding the given ops"""
+
+    def __init__(self, ops):
+        self._init_op([], [], [])
+        r = Region([Block(list(ops))])
+        r.parent = self
+        self.regions = [r]
+
+
+class ValOp(Operation):
+    """defines one value (e.g. an arith op computing a setup parameter)"""
+
+    def __init__(self):
+        self._init_op([], [None], [IndexType()])
+
+
+HOIST_SHAPES = ([dict(launch=l, place=p, val="before_if") for l in ("none", "after", "before", "nested_before", "nested_after") for p in ("same_block", "inner_block")]
+                + [dict(launch="none", place=p, val="between") for p in ("same_block", "inner_block")])
+
+
+def build_hoist(sh, sym):
+    """%r = scf.if { ...; yield %t } else { ...; yield %e };  [launch %r | region { launch %r }];  %s = setup from %r (...)"""
+    st = accfg.StateType("acc")
+    t_state = accfg.SetupOp([], [], "acc")
+    e_state = accfg.SetupOp([], [], "acc")
+    yt, ye = scf.YieldOp(t_state.out_state), scf.YieldOp(e_state.out_state)
+    cond = mk_opresult(sym.int("c"))
+    if_op = scf.IfOp(cond, [st], Region([Block([t_state, yt])]), Region([Block([e_state, ye])]))
+    r = if_op.results[0]
+    pre_val = ValOp()
+    mid_val = ValOp()
+    used = mid_val.results[0] if sh["val"] == "between" else pre_val.results[0]
+    op = accfg.SetupOp([used], ["f"], "acc", r)
+    launch = accfg.LaunchOp([], [], r) if sh["launch"] != "none" else None
+    before, after = [], []
+    if sh["launch"] == "before":
+        before = [launch]
+    elif sh["launch"] == "after":
+        after = [launch]
+    elif sh["launch"] == "nested_before":
+        before = [RegionView([launch])]
+    elif sh["launch"] == "nested_after":
+        after = [RegionView([launch])]
+    if sh["place"] == "same_block":
+        ops = [pre_val, if_op] + before + [mid_val, op] + after
+    else:
+        # the setup sits inside a later region op (e.g. the then-block of a second scf.if); launches stay in the outer block
+        inner = RegionView([mid_val, op])
+        ops = [pre_val, if_op] + before + [inner] + after
+    blk = Block(ops)
+    Region([blk])
+    r.uses.append(Use(op, 1))
+    if launch is not None:
+        r.uses.append(Use(launch, 0))
+    return dict(if_op=if_op, op=op, launch=launch, r=r, yields=[yt, ye], states=[t_state.out_state, e_state.out_state], used=used)
+
+
+@contract
+class HoistSetupCallsIntoConditionals_contract:
+    """hoisted => no launch that observes the scf.if's state can run between the if and the setup, and the setup's values
+    exist where the copies are placed; the copies continue the branch states and the if yields their results"""
+    target = "snaxc.transforms.accfg_dedup.HoistSetupCallsIntoConditionals.match_and_rewrite"
+    shapes = HOIST_SHAPES
+    native = False
+    total = True
+    permissive = True
+    compare_ret = False
+
+    def args(sh, sym):
+        return [build_hoist(sh, sym)]
+
+    def run(sh, a):
+        v = a[0]
+        rw = PatternRewriter(v["op"])
+        dedup.HoistSetupCallsIntoConditionals().match_and_rewrite(v["op"], rw)
+        return rw.log
+
+    def ensures(sh, a, ret):
+        v = a[0]
+        op = v["op"]
+        if len(ret) == 0:
+            check("not hoisted: nothing is touched", op.out_state.replaced is None)
+            return
+        # a launch on the if's state is only harmless when it provably comes AFTER the setup: same block, later position
+        check("hoisted only when no launch observing the scf.if's state can run between the if and the setup",
+              sh["launch"] == "none" or (sh["launch"] == "after" and sh["place"] == "same_block"))
+        check("hoisted only when the values the setup writes are defined in front of the scf.if (available inside its branches)", sh["val"] == "before_if")
+        ins = [e for e in ret if e[0] == "insert_op"]
+        rep = [e for e in ret if e[0] == "replace_op"]
+        check("one copy per branch, placed in front of that branch's yield; each yield replaced; the setup erased",
+              len(ins) == 2 and len(rep) == 2 and len([e for e in ret if e[0] == "erase_op" and e[1] is op]) == 1 and len(ret) == 5)
+        for k in range(2):
+            y = v["yields"][k]
+            mine = [e for e in ins if e[2].kind == "before" and e[2].anchor is y]
+            check(f"branch {k}: a copy of the setup (same accelerator, fields and values) continues the state that branch yielded",
+                  len(mine) == 1 and len(mine[0][1]) == 1 and isinstance(mine[0][1][0], accfg.SetupOp) and mine[0][1][0].in_state is v["states"][k]
+                  and mine[0][1][0].accelerator == op.accelerator and mine[0][1][0].param_names == op.param_names
+                  and len(mine[0][1][0].values) == 1 and mine[0][1][0].values[0] is v["used"])
+            ry = [e for e in rep if e[1] is y]
+            check(f"branch {k}: the yield now passes on the state after the copy",
+                  len(ry) == 1 and len(ry[0][2]) == 1 and isinstance(ry[0][2][0], scf.YieldOp) and len(mine) == 1 and ry[0][2][0].operands[0] is mine[0][1][0].out_state)
+        check("users of the erased setup's state now see the scf.if's result", op.out_state.replaced is not None and op.out_state.replaced[0] is v["r"])
+
+    def canary(sh, a, ret):
+        check("canary: never hoisted", len(ret) == 0)
